@@ -377,6 +377,8 @@ func (g *goSide) dump() (out string) {
 		strings.Join(vals, " "), strings.Join(idx, ","), showStat(stat), showQueue(st.GetWithdrawQueue()), strings.Join(vdirt, " "), r, vr, j, vj)
 }
 
+const rootsUnstable = "not-compared:removed-validator-pending"
+
 // roots = IntermediateRoot(true) of a Copy (the live state is not touched).
 func (g *goSide) roots() (out string) {
 	defer func() {
@@ -384,6 +386,17 @@ func (g *goSide) roots() (out string) {
 			out = fmt.Sprintf("roots-panic: %v", r)
 		}
 	}()
+	// While a validator flagged deleted by RemoveValidator is still dirty, IntermediateRoot subtracts it from
+	// the statistics a second time (deleteValidator); the subtraction is guarded (Cmp >= 0) and the dirty set is
+	// a Go map, so the resulting statistics - and the validator root - depend on the map's iteration order.
+	// Two root computations of the SAME state can then differ; such states are not compared by root.
+	_, vd := g.st.VerifC09Dirties()
+	for _, id := range valIDs {
+		a := valAddr(id)
+		if raw, del := g.st.VerifC09RawValidator(a); raw != nil && del && (vd[a] > 0 || g.st.VerifC09ValDirtyObj(a)) {
+			return rootsUnstable
+		}
+	}
 	c := g.st.Copy()
 	a, b, d := c.IntermediateRoot(true)
 	return fmt.Sprintf("%x/%x/%x", a[:6], b[:6], d[:6])
